@@ -204,13 +204,16 @@ pub open spec fn dt_matches(d: DataType, m: MV) -> bool
 
 // ---------------------------------------------------------------------------------------------------------------------------------------
 // Object-safe byte streams.  prelude/base.rs declares `Read: Sized` / `Write: Sized` with generic methods (`read_u16::<E>`), so `dyn Read`
-// cannot be formed from them; the real trait passes `&mut dyn Read` / `&mut dyn Write`.  The containers only hand the stream on to their
-// elements; the single method they call themselves is `read_exact` (Component::read, sized sub-stream).  Contracts: verbatim from base.rs.
+// cannot be formed from them; the real trait passes `&mut dyn Read` / `&mut dyn Write`.  As in std + byteorder the object-safe core
+// (std::io::Read / Write: read_exact, read_to_end, write_all) and the generic extension methods (byteorder::ReadBytesExt / WriteBytesExt,
+// blanket-implemented for every reader / writer, sized or not) are separate traits.  Method contracts: VERBATIM from prelude/base.rs
+// (`read` / `write`, which src/model/data.rs does not call, are left out); NEW: `infallible()` and its clause on every write method.
 pub trait DynRead {
     spec fn rest(&self) -> Seq<u8>;
+    /// everything else observable about the object (for a duplex stream: what has been written); reads leave it alone
     spec fn wr(&self) -> Seq<u8>;
 
-    /// std: fills `buf` completely or fails.   (clauses = prelude/base.rs Read::read_exact)
+    /// std: fills `buf` completely or fails.
     fn read_exact(&mut self, buf: &mut [u8]) -> (r: RdpResult<()>)
         ensures
             final(self).wr() == old(self).wr(),
@@ -219,15 +222,56 @@ pub trait DynRead {
                 && final(buf)@ == old(self).rest().take(old(buf)@.len() as int)
                 && final(self).rest() == old(self).rest().skip(old(buf)@.len() as int),
             r is Err ==> is_suffix(final(self).rest(), old(self).rest());
+
+    /// std: appends everything that is left.
+    fn read_to_end(&mut self, buf: &mut Vec<u8>) -> (r: RdpResult<usize>)
+        ensures
+            final(self).wr() == old(self).wr(),
+            r is Ok ==> final(buf)@ == old(buf)@ + old(self).rest() && final(self).rest().len() == 0
+                && r->Ok_0 == old(self).rest().len(),
+            r is Err ==> is_suffix(final(self).rest(), old(self).rest());
+}
+
+/// byteorder::ReadBytesExt (`impl<R: io::Read + ?Sized> ReadBytesExt for R {}`)
+pub trait ReadBytesExt: DynRead {
+    fn read_u8(&mut self) -> (r: RdpResult<u8>)
+        ensures
+            final(self).wr() == old(self).wr(),
+            r is Ok ==> old(self).rest().len() >= 1 && r->Ok_0 == old(self).rest()[0]
+                && final(self).rest() == old(self).rest().skip(1),
+            r is Err ==> is_suffix(final(self).rest(), old(self).rest());
+
+    fn read_u16<E: ByteOrder>(&mut self) -> (r: RdpResult<u16>)
+        ensures
+            final(self).wr() == old(self).wr(),
+            r is Ok ==> old(self).rest().len() >= 2 && r->Ok_0 == dec16(old(self).rest(), E::le())
+                && final(self).rest() == old(self).rest().skip(2),
+            r is Err ==> is_suffix(final(self).rest(), old(self).rest());
+
+    fn read_u32<E: ByteOrder>(&mut self) -> (r: RdpResult<u32>)
+        ensures
+            final(self).wr() == old(self).wr(),
+            r is Ok ==> old(self).rest().len() >= 4 && r->Ok_0 == dec32(old(self).rest(), E::le())
+                && final(self).rest() == old(self).rest().skip(4),
+            r is Err ==> is_suffix(final(self).rest(), old(self).rest());
+}
+impl<R: DynRead + ?Sized> ReadBytesExt for R {
+    #[verifier::external_body]
+    fn read_u8(&mut self) -> (r: RdpResult<u8>) { unimplemented!() }
+    #[verifier::external_body]
+    fn read_u16<E: ByteOrder>(&mut self) -> (r: RdpResult<u16>) { unimplemented!() }
+    #[verifier::external_body]
+    fn read_u32<E: ByteOrder>(&mut self) -> (r: RdpResult<u32>) { unimplemented!() }
 }
 
 pub trait DynWrite {
     spec fn written(&self) -> Seq<u8>;
+    /// the read side of a duplex stream; writes leave it alone
     spec fn rd(&self) -> Seq<u8>;
     /// a sink that accepts everything (a Cursor<Vec<u8>> positioned at its end: base.rs `impl Write for Cursor<Vec<u8>>`)
     spec fn infallible(&self) -> bool;
 
-    /// std: everything or an error (after a possibly partial delivery).   (clauses = prelude/base.rs Write::write_all + the infallible case)
+    /// std: everything or an error (after a possibly partial delivery).
     fn write_all(&mut self, buf: &[u8]) -> (r: RdpResult<()>)
         ensures
             !automata_err(r),
@@ -236,6 +280,43 @@ pub trait DynWrite {
             r is Err ==> is_prefix(old(self).written(), final(self).written())
                 && final(self).written().len() <= old(self).written().len() + buf@.len(),
             old(self).infallible() ==> r is Ok && final(self).infallible();
+}
+
+/// byteorder::WriteBytesExt (`impl<W: io::Write + ?Sized> WriteBytesExt for W {}`)
+pub trait WriteBytesExt: DynWrite {
+    fn write_u8(&mut self, v: u8) -> (r: RdpResult<()>)
+        ensures
+            !automata_err(r),
+            final(self).rd() == old(self).rd(),
+            r is Ok ==> final(self).written() == old(self).written() + seq![v],
+            r is Err ==> final(self).written() == old(self).written(),
+            old(self).infallible() ==> r is Ok && final(self).infallible();
+
+    fn write_u16<E: ByteOrder>(&mut self, v: u16) -> (r: RdpResult<()>)
+        ensures
+            !automata_err(r),
+            final(self).rd() == old(self).rd(),
+            r is Ok ==> final(self).written() == old(self).written() + enc16(v, E::le()),
+            r is Err ==> is_prefix(old(self).written(), final(self).written())
+                && final(self).written().len() <= old(self).written().len() + 2,
+            old(self).infallible() ==> r is Ok && final(self).infallible();
+
+    fn write_u32<E: ByteOrder>(&mut self, v: u32) -> (r: RdpResult<()>)
+        ensures
+            !automata_err(r),
+            final(self).rd() == old(self).rd(),
+            r is Ok ==> final(self).written() == old(self).written() + enc32(v, E::le()),
+            r is Err ==> is_prefix(old(self).written(), final(self).written())
+                && final(self).written().len() <= old(self).written().len() + 4,
+            old(self).infallible() ==> r is Ok && final(self).infallible();
+}
+impl<W: DynWrite + ?Sized> WriteBytesExt for W {
+    #[verifier::external_body]
+    fn write_u8(&mut self, v: u8) -> (r: RdpResult<()>) { unimplemented!() }
+    #[verifier::external_body]
+    fn write_u16<E: ByteOrder>(&mut self, v: u16) -> (r: RdpResult<()>) { unimplemented!() }
+    #[verifier::external_body]
+    fn write_u32<E: ByteOrder>(&mut self, v: u32) -> (r: RdpResult<()>) { unimplemented!() }
 }
 
 /// TRUSTED (explicit form of the unsizing coercion `&mut Cursor<Vec<u8>> -> &mut dyn Read`, which Verus rejects at call sites): the same reader
